@@ -8,7 +8,7 @@ PROPERTY = "C11"
 LEVEL = "exploration"
 RULE = (
     "inputs = example corpus + generated family (shapes, wrap, DLM) + one-step mutations (duplicated / blank / "
-    "case-variant mnemonics, unit .1IN, emptied values, lengthened fields); every input x every writer configuration "
+    "case-variant mnemonics, unit .1IN, emptied values, lengthened fields) + version shapes (VERS 1.0 / 1.2 / 2.0 / 2.1 / 3.0, duplicated VERS / WRAP lines, WRAP flag in other letter cases over 5 / 7 / 14 curves, values with runs of blanks, ~Other ending in blank lines); every input x every writer configuration "
     "in the k-deviation ball of (version, wrap, fmt, column_fmt, len_numeric_field, spacer, lhs_spacer, data_width, "
     "mnemonics_header, data_section_header), and under mnemonic_case lower/preserve for three configurations: l1=read(x), t1=write(l1), l2=read(t1), t2=write(l2), l3=read(t2) ... up to "
     "4 cycles; canonical content (numeric mode) of cycle n+1 must equal cycle n for n >= 2; inputs whose first read or "
